@@ -87,7 +87,7 @@ def signature(func, variadic=True, markup=True, safe=False):
             func = func.func
             identified = True
         except AttributeError:
-            if hasattr(func, '__call__') and not hasattr(func, '__name__'):
+            if hasattr(func, '__call__') and not (inspect.isclass(func) or inspect.isroutine(func)):
                 func = func.__call__ # treat callable instance as __call__
             else: #XXX: anything else to try? No? Give up.
                 pass
@@ -201,7 +201,7 @@ def validate(func, *args, **kwds):
             p_required = set(p_named) - set(p_defaults)
             identified = True
         except AttributeError:
-            if hasattr(func, '__call__') and not hasattr(func, '__name__'):
+            if hasattr(func, '__call__') and not (inspect.isclass(func) or inspect.isroutine(func)):
                 func = func.__call__ # treat callable instance as __call__
             else: #XXX: anything else to try? No? Give up.
                 pass
